@@ -1,11 +1,11 @@
-(* C20 -- proofs about Model/Spsc.v, part 2: close, end-of-stream, wake-ups, termination *)
+(* C20 -- proofs about Model/Spsc.v, part 3: close, end-of-stream, wake-ups, termination; 1..n producers *)
 From Coq Require Import ZArith List Bool Lia Znumtheory.
-From RV Require Import Model.SpscSkel Model.Spsc Gen.SpscProg Proofs.SpscProofs.
+From RV Require Import Model.SpscSkel Model.Spsc Gen.SpscProg Proofs.SpscProofs Proofs.SpscN.
 Import ListNotations.
 Open Scope Z_scope.
 Open Scope bool_scope.
 
-(* ================================================================== close, end-of-stream, wake-ups (one producer) *)
+(* ================================================================== close, end-of-stream, wake-ups *)
 Definition p_busy (p : pth) : bool :=
   match p_pc p with PIdle | PDropStoreClosed | PDropNotify => false | _ => true end.
 Definition p_dropping (p : pth) : bool :=
@@ -39,12 +39,20 @@ Definition c_is_waiting_rv (c : cth) : bool := match c_pc c with CRvWaiting => t
 Definition s_notifying (x : sth) : bool := match s_pc x with SNotify => true | _ => false end.
 Definition p_notifying (p : pth) : bool := match p_pc p with PDropNotify => true | _ => false end.
 
-Record Inv2 (h : sh) (c : cth) (x : sth) (p : pth) : Prop := {
-  j_senders : senders h = p_handles p /\ 0 <= p_handles p;
+Definition p_storing (p : pth) : bool := match p_pc p with PDropStoreClosed => true | _ => false end.
+
+(* what the OTHER producer threads contribute: their handles, and whether one of them is inside an
+   operation / about to store the closed flag / about to call notify_waiters *)
+Record env : Set := mkE { e_h : Z; e_busy : bool; e_storing : bool; e_notif : bool }.
+
+Record Inv2 (h : sh) (c : cth) (x : sth) (p : pth) (E : env) : Prop := {
+  j_senders : senders h = p_handles p + e_h E /\ 0 <= p_handles p /\ 0 <= e_h E;
+  j_ebusy : e_busy E = true -> 1 <= e_h E;
   j_busy : p_busy p = true -> 1 <= p_handles p;
-  j_dropz : p_dropping p = true -> p_handles p = 0;
-  j_closed : closed h = true -> p_handles p = 0 /\ p_quiet p = true;
-  j_storing : p_pc p = PDropStoreClosed -> closed h = false;
+  j_dropz : p_dropping p || e_storing E || e_notif E = true -> p_handles p + e_h E = 0;
+  j_one : p_dropping p = true -> e_storing E = false /\ e_notif E = false;
+  j_closed : closed h = true -> p_handles p + e_h E = 0 /\ p_quiet p = true /\ e_busy E = false /\ e_storing E = false;
+  j_storing : p_storing p || e_storing E = true -> closed h = false;
   j_cl : c_after_closed c = true -> c_cl c = true -> closed h = true;
   j_clwait : c_no_cl c = true -> c_cl c = false;
   j_stop_end : stopped h = true -> ended h = true;
@@ -58,8 +66,8 @@ Record Inv2 (h : sh) (c : cth) (x : sth) (p : pth) : Prop := {
   w_snap : c_snap c <= nwc h;
   w_stop : c_after_ended c = true -> nwc h = c_snap c -> stopped h = true -> s_notifying x = true;
   w_stop' : c_is_waiting_rv c = true -> woken h = false -> stopped h = true -> s_notifying x = true;
-  w_close : c_fresh_open c = true -> nwc h = c_snap c -> closed h = true -> p_notifying p = true;
-  w_close' : c_is_waiting c = true -> woken h = false -> closed h = true -> p_notifying p = true }.
+  w_close : c_fresh_open c = true -> nwc h = c_snap c -> closed h = true -> p_notifying p || e_notif E = true;
+  w_close' : c_is_waiting c = true -> woken h = false -> closed h = true -> p_notifying p || e_notif E = true }.
 
 (* ---- more frame lemmas *)
 Lemma rw_closed h t v : closed (ring_write h t v) = closed h. Proof. unfold ring_write. destruct (slots h _); reflexivity. Qed.
@@ -94,21 +102,26 @@ Lemma nw_nwc h : nwc (notify_waiters h) = nwc h + 1. Proof. unfold notify_waiter
 Arguments is_mt : simpl never.
 Arguments is_full : simpl never.
 
-Ltac unf_2 := unfold p_busy, p_dropping, p_quiet, c_after_ended, c_after_closed, c_sees_drained, c_in_empty,
+Ltac unf_2 := unfold p_busy, p_dropping, p_quiet, p_storing, c_after_ended, c_after_closed, c_sees_drained, c_in_empty,
                      c_is_waiting, c_is_waiting_rv, c_fresh_open, c_no_cl, s_notifying, p_notifying in *.
 Ltac fld2 :=
   autorewrite with shf;
   try assumption; try reflexivity; try discriminate;
   try solve [intros; discriminate];
-  try solve [intuition (try discriminate; try congruence; try lia)];
+  try solve [intros; auto];
+  try solve [intros; congruence];
+  try solve [intros; lia];
+  try solve [intros; eauto 4];
+  try solve [intros; first [left; solve [auto] | right; solve [auto]]];
+  try solve [timeout 4 (intuition (try discriminate; try congruence; try lia))];
   try solve [intros; repeat match goal with H : context [negb ?b] |- _ => destruct b eqn:?; cbn [negb] in * end;
-             intuition (try discriminate; try congruence; try lia)];
-  try solve [let E := fresh in intros E; rewrite E in *; cbn in *; intuition (try discriminate; try congruence; try lia)];
+             timeout 4 (intuition (try discriminate; try congruence; try lia))];
+  try solve [let E := fresh in intros E; rewrite E in *; cbn in *; timeout 4 (intuition (try discriminate; try congruence; try lia))];
   try solve [intros; match goal with |- ?b = false => destruct b eqn:?; [exfalso|reflexivity] end;
-             intuition (try discriminate; try congruence; try lia)];
+             timeout 4 (intuition (try discriminate; try congruence; try lia))];
   try solve [match goal with |- context [c_pc ?c] => let pcx := fresh "pcx" in remember (c_pc c) as pcx; destruct pcx end;
              intros; repeat match goal with H : context [negb ?b] |- _ => destruct b eqn:?; cbn [negb] in * end;
-             intuition (try discriminate; try congruence; try lia)].
+             timeout 4 (intuition (try discriminate; try congruence; try lia))].
 
 Lemma no_waiting_true h : waiting h = true -> notify_one h = set_notify h (permit h) false true true.
 Proof. unfold notify_one. intros ->. reflexivity. Qed.
@@ -119,10 +132,13 @@ Proof. unfold notify_waiters. intros ->. reflexivity. Qed.
 Lemma nw_waiting_false h : waiting h = false -> notify_waiters h = set_nw h false (woken h) (wone h).
 Proof. unfold notify_waiters. intros ->. reflexivity. Qed.
 
-Lemma sstep_inv2 h c x p h' x' : Inv2 h c x p -> sstep h x = Some (h', x') -> Inv2 h' c x' p.
+
+Ltac dJ J := destruct J as [Jsend Jeb Jbusy Jdropz Jone Jclosed Jstoring Jcl Jclw Jse Jended Jdr Jemp JempT Jeos
+                            Wwait Wnowait Wsnap Wstop Wstop' Wclose Wclose'].
+
+Lemma sstep_inv2 h c x p E h' x' : Inv2 h c x p E -> sstep h x = Some (h', x') -> Inv2 h' c x' p E.
 Proof.
-  intros J Hstep.
-  destruct J as [Jsend Jbusy Jdropz Jclosed Jstoring Jcl Jclw Jse Jended Jdr Jemp JempT Jeos Wwait Wnowait Wsnap Wstop Wstop' Wclose Wclose'].
+  intros J Hstep. dJ J.
   destruct x as [todo spc]. unfold sstep in Hstep. cbn [s_pc s_todo] in Hstep. unf_2. cbn [s_pc] in *.
   destruct spc; [destruct todo; [discriminate|]| |]; inv_step Hstep.
   - constructor; unf_2; cbn in *; fld2.
@@ -135,14 +151,17 @@ Qed.
 Lemma in_app_one {A} (l : list A) x y : In y (l ++ [x]) <-> In y l \/ y = x.
 Proof. rewrite in_app_iff. cbn. intuition. Qed.
 
-Lemma cstep_inv2 R V0 h c x p h' c' :
-  Inv1 R V0 h c p -> idxs_ok h (lenZ V0) -> Inv2 h c x p -> cstep h c = Some (h', c') -> Inv2 h' c' x p.
+(* consumer steps leave the producer-side facts alone: try them as they are, and keep them out of
+   the way of the propositional search for the rest *)
+Ltac fld2c := fld2.
+
+Lemma cstep_inv2 R V0 B h c x p E h' c' :
+  Inv1 R V0 h c p -> tail h <= B -> idxs_ok h B -> Inv2 h c x p E -> cstep h c = Some (h', c') -> Inv2 h' c' x p E.
 Proof.
-  intros I Hidx J Hstep.
+  intros I HtV Hidx J Hstep.
   pose proof (excl_pop _ _ _ _ _ I) as Hex.
-  pose proof (tail_le_V0 _ _ _ _ _ I) as HtV.
   destruct I as [Iring Ilock Iexcl Iplock Imode Iprt Iprh Icrh Irecv Isent Iraw].
-  destruct J as [Jsend Jbusy Jdropz Jclosed Jstoring Jcl Jclw Jse Jended Jdr Jemp JempT Jeos Wwait Wnowait Wsnap Wstop Wstop' Wclose Wclose'].
+  dJ J.
   destruct c as [prog pc rt rh rp snap cl can rets].
   unfold cstep in Hstep; cbn [c_pc c_prog c_rh c_rp c_snap c_cl c_can] in Hstep.
   unf_c; unf_2; cbn [c_pc c_prog c_rh c_rp c_rets c_snap c_cl c_can] in *.
@@ -153,7 +172,6 @@ Proof.
        | context [match ?l with [] => _ | _ => _ end] => destruct l as [|[] ?]
        end.
   all: try discriminate Hstep.
-  all: try solve [inv_step Hstep; constructor; unf_c; unf_2; cbn in *; fld2].
   all: try (specialize (Icrh eq_refl); subst rh).
   all: try match type of Hstep with context [ring_read] =>
          destruct (ring_read_ok _ _ true Iring) as (v & Hv & Hrd & Hring');
@@ -162,25 +180,22 @@ Proof.
          pose proof (ring_empty_is_empty _ _ RI H) end.
   all: try match goal with RI : RingInv _ _ RMoved |- _ => pose proof (ri_ht _ _ _ RI); cbn [rd] in * end.
   all: try match goal with H : (_ =? _) = true |- _ => apply Z.eqb_eq in H end.
-  all: inv_step Hstep; constructor; unf_c; unf_2; cbn in *; rewrite ?in_app_one in *; fld2.
+  all: inv_step Hstep; unf_c; unf_2; cbn in *; constructor; unf_c; unf_2; cbn; rewrite ?in_app_one in *; fld2c.
   (* CRvEmptyT, empty: closed, so the producer is quiet and the ring really is empty *)
   intros _. specialize (Jemp eq_refl). specialize (JempT eq_refl). subst rh.
-  split; [assumption|]. destruct (Jclosed Jemp) as [_ Hq].
+  split; [assumption|]. destruct (Jclosed Jemp) as (_ & Hq & _).
   assert (Hnp : p_inpop p = false) by (unfold p_inpop; destruct (p_pc p); try discriminate; reflexivity).
   rewrite rph_p_notin in Iring by assumption.
   eapply ring_empty_is_empty; eauto.
 Qed.
 
-Lemma pstep_inv2 R V0 h c x p h' p' :
-  Inv1 R V0 h c p -> idxs_ok h (lenZ V0) -> Inv2 h c x p -> pstep h p = Some (h', p') -> Inv2 h' c x p'.
+Lemma pstep_inv2 h c x p E h' p' :
+  Inv2 h c x p E -> pstep h p = Some (h', p') -> Inv2 h' c x p' E.
 Proof.
-  intros I Hidx J Hstep.
-  pose proof (excl_pop _ _ _ _ _ I) as Hex.
-  destruct I as [Iring Ilock Iexcl Iplock Imode Iprt Iprh Icrh Irecv Isent Iraw].
-  destruct J as [Jsend Jbusy Jdropz Jclosed Jstoring Jcl Jclw Jse Jended Jdr Jemp JempT Jeos Wwait Wnowait Wsnap Wstop Wstop' Wclose Wclose'].
-  destruct p as [prog pc prt prh rv hd rets].
-  unfold pstep in Hstep; cbn [p_pc p_prog p_rt p_rh p_rv p_handles p_rets] in Hstep.
-  unf_p; unf_2; cbn [p_pc p_prog p_rt p_rh p_rv p_handles p_rets] in *.
+  intros J Hstep. dJ J.
+  destruct p as [prog pc prt prh rv hd rets pp].
+  unfold pstep in Hstep; cbn [p_pc p_prog p_rt p_rh p_rv p_handles p_rets p_pushed] in Hstep.
+  unf_p; unf_2; cbn [p_pc p_prog p_rt p_rh p_rv p_handles p_rets p_pushed] in *.
   destruct pc as [|k|k|cx m|cx|mm|mm m|mm|r| | | |].
   all: try (destruct m).
   all: try (destruct cx).
@@ -200,110 +215,306 @@ Proof.
   all: try match type of Hstep with context [notify_waiters ?s] =>
          let Hw := fresh "Hw" in destruct (waiting s) eqn:Hw;
          [rewrite (nw_waiting_true _ Hw) in Hstep | rewrite (nw_waiting_false _ Hw) in Hstep] end.
-  all: try solve [inv_step Hstep; constructor; unf_p; unf_2; cbn in *; fld2].
-  all: inv_step Hstep; constructor; unf_p; unf_2; cbn in *; fld2.
+  all: inv_step Hstep; unf_p; unf_2; cbn in *; constructor; unf_p; unf_2; cbn; fld2.
+  all: destruct (e_busy E), (e_storing E), (e_notif E); cbn in *;
+       intuition (try discriminate; try congruence; try lia).
 Qed.
 
-Definition InvAll (R : bool) (V0 : list val) (s : st) : Prop :=
-  exists p, prods s = [p] /\ Inv1 R V0 (shd s) (cons s) p /\ idxs_ok (shd s) (lenZ V0) /\
-            Inv2 (shd s) (cons s) (stp s) p.
+(* ---- from one producer + "the others" to the list of producers *)
+Fixpoint hsum (ps : list pth) : Z := match ps with [] => 0 | p :: r => p_handles p + hsum r end.
+Definition others {A} (k : nat) (l : list A) : list A := firstn k l ++ skipn (S k) l.
+Definition env_of (k : nat) (ps : list pth) : env :=
+  let o := others k ps in mkE (hsum o) (existsb p_busy o) (existsb p_storing o) (existsb p_notifying o).
+Definition plocal (p : pth) : Prop := 0 <= p_handles p /\ (p_busy p = true -> 1 <= p_handles p).
+Definition one_dropper (ps : list pth) : Prop :=
+  forall i j pi pj, i <> j -> nth_error ps i = Some pi -> nth_error ps j = Some pj ->
+                    p_dropping pi = true -> p_dropping pj = true -> False.
 
-Lemma step_inv_all R V0 s t s' : InvAll R V0 s -> step s t = Some s' -> InvAll R V0 s'.
+Lemma split_nth {A} (l : list A) k x : nth_error l k = Some x -> l = firstn k l ++ x :: skipn (S k) l.
 Proof.
-  intros (p & Hp & I & Hidx & J) H.
-  assert (Hi : Inv R V0 s) by (exists p; auto).
-  pose proof (step_inv _ _ _ _ _ Hi H) as (p' & Hp' & I' & Hidx').
-  exists p'. split; [assumption|]. split; [assumption|]. split; [assumption|].
-  unfold step in H. destruct t as [|[|k]].
-  - destruct (cstep (shd s) (cons s)) as [[h c]|] eqn:E; [|discriminate]. inv_step H. cbn in *.
-    rewrite Hp in Hp'. inv_step Hp'. exact (cstep_inv2 _ _ _ _ _ _ _ _ I Hidx J E).
-  - destruct (sstep (shd s) (stp s)) as [[h x]|] eqn:E; [|discriminate]. inv_step H. cbn in *.
-    rewrite Hp in Hp'. inv_step Hp'. exact (sstep_inv2 _ _ _ _ _ _ J E).
-  - rewrite Hp in H. destruct k as [|k]; cbn in H; [|destruct k; discriminate].
-    destruct (pstep (shd s) p) as [[h p'']|] eqn:E; [|discriminate]. inv_step H. cbn in *.
-    inv_step Hp'. exact (pstep_inv2 _ _ _ _ _ _ _ _ I Hidx J E).
+  revert k. induction l as [|a l IH]; intros [|k] H; cbn in *; try discriminate.
+  - inversion H. reflexivity.
+  - f_equal. apply IH. exact H.
+Qed.
+Lemma hsum_app a b : hsum (a ++ b) = hsum a + hsum b.
+Proof. induction a; cbn; [reflexivity|lia]. Qed.
+Lemma hsum_split ps k p : nth_error ps k = Some p -> hsum ps = p_handles p + hsum (others k ps).
+Proof. intros H. rewrite (split_nth _ _ _ H) at 1. unfold others. rewrite !hsum_app. cbn. lia. Qed.
+Lemma existsb_split {A} (f : A -> bool) l k x : nth_error l k = Some x -> existsb f l = f x || existsb f (others k l).
+Proof.
+  intros H. rewrite (split_nth _ _ _ H) at 1. unfold others. rewrite !existsb_app. cbn.
+  destruct (existsb f (firstn k l)), (f x); reflexivity.
+Qed.
+Lemma others_replace {A} (l : list A) k x : others k (replace k x l) = others k l.
+Proof.
+  unfold others. revert k. induction l as [|a l IH]; intros [|k]; cbn; try reflexivity. f_equal. apply IH.
+Qed.
+Lemma env_of_replace ps k p' : env_of k (replace k p' ps) = env_of k ps.
+Proof. unfold env_of. rewrite others_replace. reflexivity. Qed.
+Lemma others_In {A} (l : list A) k x : In x (others k l) -> In x l.
+Proof.
+  unfold others. intros H. apply in_app_or in H as [H|H].
+  - rewrite <- (firstn_skipn k l). apply in_or_app. left. exact H.
+  - rewrite <- (firstn_skipn (S k) l). apply in_or_app. right. exact H.
+Qed.
+Lemma others_nth {A} (l : list A) k x : In x (others k l) -> exists i, i <> k /\ nth_error l i = Some x.
+Proof.
+  unfold others. revert k. induction l as [|a l IH]; intros k H.
+  - destruct k; cbn in H; contradiction.
+  - destruct k as [|k]; cbn in H.
+    + apply In_nth_error in H as [i Hi]. exists (S i). split; [discriminate|exact Hi].
+    + destruct H as [<-|H]; [exists 0%nat; split; [discriminate|reflexivity]|].
+      destruct (IH k H) as (i & Ni & Hi). exists (S i). split; [congruence|exact Hi].
+Qed.
+Lemma hsum_nonneg ps : Forall plocal ps -> 0 <= hsum ps.
+Proof. induction 1 as [|p l [H0 _] _ IH]; cbn; lia. Qed.
+Lemma hsum_busy ps : Forall plocal ps -> existsb p_busy ps = true -> 1 <= hsum ps.
+Proof.
+  induction 1 as [|p l [H0 Hb] Hl IH]; cbn; [discriminate|]. intros H. apply orb_true_iff in H as [H|H].
+  - specialize (Hb H). pose proof (hsum_nonneg _ Hl). lia.
+  - specialize (IH H). lia.
+Qed.
+Lemma Forall_others {A} (P : A -> Prop) l k : Forall P l -> Forall P (others k l).
+Proof. rewrite !Forall_forall. intros H x Hx. apply H. eapply others_In; eauto. Qed.
+Lemma hsum_zero ps p : Forall plocal ps -> hsum ps = 0 -> In p ps -> p_handles p = 0.
+Proof.
+  induction 1 as [|q l [H0 _] Hl IH]; cbn; [contradiction|]. intros Hs [->|Hin].
+  - pose proof (hsum_nonneg _ Hl). lia.
+  - apply IH; [|assumption]. pose proof (hsum_nonneg _ Hl). lia.
 Qed.
 
-Lemma run_inv_all R V0 sched : forall s, InvAll R V0 s -> InvAll R V0 (run s sched).
+Lemma dropping_split p : p_dropping p = p_storing p || p_notifying p.
+Proof. unfold p_dropping, p_storing, p_notifying. destruct (p_pc p); reflexivity. Qed.
+Lemma quiet_split p : p_quiet p = negb (p_busy p) && negb (p_storing p).
+Proof. unfold p_quiet, p_busy, p_storing. destruct (p_pc p); reflexivity. Qed.
+
+(* the producer-related totals of a state, independent of which producer one looks from *)
+Lemma refocus h c x ps k j pk pj :
+  Forall plocal ps -> one_dropper ps ->
+  nth_error ps k = Some pk -> nth_error ps j = Some pj ->
+  Inv2 h c x pk (env_of k ps) -> Inv2 h c x pj (env_of j ps).
+Proof.
+  intros Hloc Hone Hk Hj J. dJ J.
+  pose proof (hsum_split _ _ _ Hk) as Sk. pose proof (hsum_split _ _ _ Hj) as Sj.
+  pose proof (existsb_split p_busy _ _ _ Hk) as Bk. pose proof (existsb_split p_busy _ _ _ Hj) as Bj.
+  pose proof (existsb_split p_storing _ _ _ Hk) as Tk. pose proof (existsb_split p_storing _ _ _ Hj) as Tj.
+  pose proof (existsb_split p_notifying _ _ _ Hk) as Nk. pose proof (existsb_split p_notifying _ _ _ Hj) as Nj.
+  pose proof (hsum_nonneg _ (Forall_others _ _ j Hloc)) as Hnj.
+  assert (Hlj : plocal pj) by (rewrite Forall_forall in Hloc; apply Hloc; eapply nth_error_In; eauto).
+  destruct Hlj as [Hj0 Hjb].
+  rewrite (dropping_split pk) in *. rewrite (quiet_split pk) in *.
+  cbn [env_of e_h e_busy e_storing e_notif] in *.
+  constructor; cbn [env_of e_h e_busy e_storing e_notif]; try assumption.
+  - repeat split; lia.
+  - intros Hb. apply hsum_busy; [apply Forall_others; assumption|assumption].
+  - rewrite (dropping_split pj). intros Hd.
+    assert (Hany : existsb p_storing ps || existsb p_notifying ps = true).
+    { rewrite Tj, Nj. destruct (p_storing pj), (p_notifying pj), (existsb p_storing (others j ps)), (existsb p_notifying (others j ps)); cbn in *; congruence. }
+    rewrite Tk, Nk in Hany.
+    assert (p_handles pk + hsum (others k ps) = 0).
+    { apply Jdropz. destruct (p_storing pk), (p_notifying pk), (existsb p_storing (others k ps)), (existsb p_notifying (others k ps)); cbn in *; congruence. }
+    lia.
+  - intros Hd. 
+    assert (Hno : forall q, In q (others j ps) -> p_dropping q = false).
+    { intros q Hq. destruct (p_dropping q) eqn:Eq; [exfalso|reflexivity].
+      destruct (others_nth _ _ _ Hq) as (i & Ni & Hi). eapply (Hone i j); eauto. }
+    split; apply not_true_is_false; intros Hx; apply existsb_exists in Hx as (q & Hq & Hf);
+      specialize (Hno q Hq); rewrite dropping_split in Hno; rewrite Hf in Hno; [|rewrite orb_true_r in Hno]; discriminate.
+  - intros Hc. destruct (Jclosed Hc) as (H0 & Hq & Hb & Hs).
+    apply andb_true_iff in Hq as [Hq1 Hq2]. apply negb_true_iff in Hq1, Hq2.
+    assert (Hba : existsb p_busy ps = false) by (rewrite Bk, Hq1, Hb; reflexivity).
+    assert (Hsa : existsb p_storing ps = false) by (rewrite Tk, Hq2, Hs; reflexivity).
+    rewrite Bj in Hba. rewrite Tj in Hsa. apply orb_false_iff in Hba as [Hb1 Hb2]. apply orb_false_iff in Hsa as [Hs1 Hs2].
+    rewrite (quiet_split pj), Hb1, Hs1. repeat split; try assumption; try reflexivity. lia.
+  - intros Hs. apply Jstoring.
+    assert (Hsa : existsb p_storing ps = true) by (rewrite Tj; exact Hs). rewrite Tk in Hsa. exact Hsa.
+  - intros H1 H2 H3. specialize (Wclose H1 H2 H3).
+    assert (Hna : existsb p_notifying ps = true) by (rewrite Nk; exact Wclose). rewrite Nj in Hna. exact Hna.
+  - intros H1 H2 H3. specialize (Wclose' H1 H2 H3).
+    assert (Hna : existsb p_notifying ps = true) by (rewrite Nk; exact Wclose'). rewrite Nj in Hna. exact Hna.
+Qed.
+
+Lemma nth_in_others {A} (l : list A) k j x : j <> k -> nth_error l j = Some x -> In x (others k l).
+Proof.
+  unfold others. revert k j. induction l as [|a l IH]; intros k j N H; [destruct j; discriminate|].
+  destruct k as [|k], j as [|j]; cbn in *; try congruence.
+  - eapply nth_error_In; eauto.
+  - left. congruence.
+  - right. eapply IH; [|eauto]. congruence.
+Qed.
+
+Definition Inv2L (h : sh) (c : cth) (x : sth) (ps : list pth) : Prop :=
+  Forall plocal ps /\ one_dropper ps /\
+  exists k p, nth_error ps k = Some p /\ Inv2 h c x p (env_of k ps).
+
+Lemma Inv2L_at h c x ps k p : Inv2L h c x ps -> nth_error ps k = Some p -> Inv2 h c x p (env_of k ps).
+Proof. intros (Hl & Ho & j & q & Hj & J) Hk. exact (refocus _ _ _ _ _ _ _ _ Hl Ho Hj Hk J). Qed.
+
+Lemma Inv2L_pstep h c x ps k p h' p' :
+  Inv2L h c x ps -> nth_error ps k = Some p -> pstep h p = Some (h', p') -> Inv2L h' c x (replace k p' ps).
+Proof.
+  intros HL Hk H. pose proof (Inv2L_at _ _ _ _ _ _ HL Hk) as J.
+  pose proof (pstep_inv2 _ _ _ _ _ _ _ J H) as J'.
+  destruct HL as (Hl & Ho & _).
+  split; [|split].
+  - apply Forall_replace; [assumption|]. destruct J' as [(_ & H0 & _) _ Hb _ _ _ _ _ _ _ _ _ _ _ _ _ _ _ _ _ _ _]. split; assumption.
+  - intros i j pi pj Nij Hi Hj Di Dj.
+    assert (Hother : forall q, In q (others k ps) -> p_dropping p' = true -> p_dropping q = true -> False).
+    { intros q Hq Dp Dq. destruct J' as [_ _ _ _ Jone _ _ _ _ _ _ _ _ _ _ _ _ _ _ _ _ _].
+      destruct (Jone Dp) as [Hs Hn]. cbn in Hs, Hn.
+      rewrite dropping_split in Dq. apply orb_true_iff in Dq as [Dq|Dq].
+      - assert (existsb p_storing (others k ps) = true) by (apply existsb_exists; eauto). congruence.
+      - assert (existsb p_notifying (others k ps) = true) by (apply existsb_exists; eauto). congruence. }
+    destruct (Nat.eq_dec i k) as [->|Ni], (Nat.eq_dec j k) as [->|Nj]; try congruence.
+    + rewrite (nth_replace_eq _ _ _ _ Hk) in Hi. inv_step Hi. rewrite nth_replace_neq in Hj by assumption.
+      apply (Hother pj); [eapply nth_in_others; eauto|assumption|assumption].
+    + rewrite (nth_replace_eq _ _ _ _ Hk) in Hj. inv_step Hj. rewrite nth_replace_neq in Hi by assumption.
+      apply (Hother pi); [eapply nth_in_others; eauto|assumption|assumption].
+    + rewrite nth_replace_neq in Hi, Hj by assumption. eapply Ho; eauto.
+  - exists k, p'. split; [eapply nth_replace_eq; eauto|]. rewrite env_of_replace. assumption.
+Qed.
+
+Lemma Inv2L_sstep h c x ps h' x' : Inv2L h c x ps -> sstep h x = Some (h', x') -> Inv2L h' c x' ps.
+Proof.
+  intros (Hl & Ho & k & p & Hk & J) H. split; [assumption|]. split; [assumption|].
+  exists k, p. split; [assumption|]. eapply sstep_inv2; eauto.
+Qed.
+
+(* ---- both invariants together *)
+Definition InvAll (R : bool) (Vs : list (list val)) (s : st) : Prop :=
+  InvG R Vs s /\ Inv2L (shd s) (cons s) (stp s) (prods s).
+
+Lemma step_inv_all R Vs s t s' : InvAll R Vs s -> step s t = Some s' -> InvAll R Vs s'.
+Proof.
+  intros [HG HL] H. split; [eapply step_invG; eauto|].
+  unfold step in H. destruct t as [|[|k]].
+  - destruct (cstep (shd s) (cons s)) as [[h c]|] eqn:E; [|discriminate]. inv_step H. cbn.
+    pose proof (InvN_tail _ _ _ _ _ HG) as Ht.
+    destruct HG as (_ & _ & _ & Hidx & f & pf & Vf & Hf & _ & I & _).
+    pose proof (Inv2L_at _ _ _ _ _ _ HL Hf) as J.
+    destruct HL as (Hl & Ho & _). split; [assumption|]. split; [assumption|].
+    exists f, pf. split; [assumption|]. eapply cstep_inv2; eauto.
+  - destruct (sstep (shd s) (stp s)) as [[h x]|] eqn:E; [|discriminate]. inv_step H. cbn. eapply Inv2L_sstep; eauto.
+  - destruct (nth_error (prods s) k) as [p|] eqn:Hk; [|discriminate].
+    destruct (pstep (shd s) p) as [[h p']|] eqn:E; [|discriminate]. inv_step H. cbn. eapply Inv2L_pstep; eauto.
+Qed.
+
+Lemma run_inv_all R Vs sched : forall s, InvAll R Vs s -> InvAll R Vs (run s sched).
 Proof.
   induction sched as [|t r IH]; intros s I; cbn; [assumption|]. apply IH.
   unfold step'. destruct (step s t) eqn:E; [eapply step_inv_all; eauto|assumption].
 Qed.
 
-Lemma init_inv_all capacity w cprog n pprog :
-  cfg_ok capacity w cprog pprog ->
-  InvAll (negb (existsb is_osend pprog)) (op_vals pprog) (init capacity w cprog n [pprog]).
+Lemma hsum_p0 pprogs : hsum (map p0 pprogs) = Z.of_nat (length pprogs).
+Proof. induction pprogs as [|a l IH]; [reflexivity|]. cbn [map hsum]. rewrite IH. cbn [p0 p_handles length]. lia. Qed.
+Lemma existsb_p0 (f : pth -> bool) l : (forall pr, f (p0 pr) = false) -> existsb f (map p0 l) = false.
+Proof. intros H. induction l; cbn; [reflexivity|]. rewrite H, IHl. reflexivity. Qed.
+
+Lemma init_inv_all capacity w cprog n pprogs :
+  cfgN_ok capacity w cprog pprogs ->
+  InvAll (forallb no_send pprogs) (map op_vals pprogs) (init capacity w cprog n pprogs).
 Proof.
-  intros H. destruct (init_inv capacity w cprog n pprog H) as (p & Hp & I & Hidx).
-  exists p. split; [assumption|]. split; [assumption|]. split; [assumption|].
-  cbn in Hp. inv_step Hp. cbn.
-  constructor; unf_2; cbn; try solve [intuition (try discriminate; try lia)].
+  intros H. split; [apply init_invG; assumption|].
+  destruct H as (_ & _ & Hne & _). unfold init. cbn [shd cons stp prods].
+  split; [|split].
+  - apply Forall_forall. intros p Hin. apply in_map_iff in Hin as (pr & <- & _). split; cbn; [lia|discriminate].
+  - intros i j pi pj _ Hi _ Di _. apply nth_error_In in Hi. apply in_map_iff in Hi as (pr & <- & _). discriminate.
+  - destruct pprogs as [|pr l]; [congruence|]. exists 0%nat, (p0 pr). split; [reflexivity|].
+    unfold env_of, others. cbn [map firstn skipn app].
+    constructor; unf_2; cbn [sh0 senders closed ended stopped waiting woken nwc head tail p0 p_handles p_pc c0 c_pc c_rets c_snap c_cl
+                              e_h e_busy e_storing e_notif s_pc];
+      rewrite ?hsum_p0, ?existsb_p0 by reflexivity;
+      try solve [intuition (try discriminate; try lia)].
+    + cbn [length]. rewrite Nat2Z.inj_succ. split; [lia|]. split; lia.
+    + intros [].
 Qed.
 
-Lemma reach_inv_all capacity w cprog n pprog sched :
-  cfg_ok capacity w cprog pprog ->
-  InvAll (negb (existsb is_osend pprog)) (op_vals pprog) (run (init capacity w cprog n [pprog]) sched).
+Lemma reach_inv_all capacity w cprog n pprogs sched :
+  cfgN_ok capacity w cprog pprogs ->
+  InvAll (forallb no_send pprogs) (map op_vals pprogs) (run (init capacity w cprog n pprogs) sched).
 Proof. intros H. apply run_inv_all, init_inv_all, H. Qed.
 
-(* ---- theorems about close / end-of-stream / wake-ups *)
-Section OneProducerClose.
-  Variables (capacity w : Z) (cprog : list cop) (nstop : nat) (pprog : list pop_) (sched : list nat).
-  Hypothesis Hcfg : cfg_ok capacity w cprog pprog.
-  Let s := run (init capacity w cprog nstop [pprog]) sched.
+(* ---- theorems about close / end-of-stream / wake-ups, 1..n producer threads *)
+Section NProducersClose.
+  Variables (capacity w : Z) (cprog : list cop) (nstop : nat) (pprogs : list (list pop_)) (sched : list nat).
+  Hypothesis Hcfg : cfgN_ok capacity w cprog pprogs.
+  Let s := run (init capacity w cprog nstop pprogs) sched.
+
+  Lemma nprod_all : InvAll (forallb no_send pprogs) (map op_vals pprogs) s.
+  Proof. apply reach_inv_all. exact Hcfg. Qed.
+
+  Lemma nprod_focus2 :
+    exists f pf Vf, nth_error (prods s) f = Some pf /\ Inv1 (forallb no_send pprogs) Vf (shd s) (cons s) pf /\
+                    Inv2 (shd s) (cons s) (stp s) pf (env_of f (prods s)) /\ Forall plocal (prods s).
+  Proof.
+    destruct nprod_all as [(_ & _ & _ & _ & f & pf & Vf & Hf & _ & I & _) HL].
+    exists f, pf, Vf. split; [assumption|]. split; [assumption|]. split; [eapply Inv2L_at; eauto|]. apply HL.
+  Qed.
 
   (* recv() answers end-of-stream only after stop(), or after the last source handle is gone AND
      everything that entered the ring has left it (delivered, or discarded as "oldest") *)
-  Lemma spsc_eos_sound :
+  Lemma nprod_eos_sound :
     In REos (c_rets (cons s)) ->
     stopped (shd s) = true \/
     (closed (shd s) = true /\ head (shd s) = tail (shd s) /\ map snd (taken (shd s)) = pushed (shd s)).
   Proof.
-    intros Hin. destruct (reach_inv_all _ _ _ nstop _ sched Hcfg) as (p & Hp & I & _ & J). fold s in Hp, I, J.
-    destruct J as [_ _ _ _ _ _ _ _ Jended _ _ _ Jeos _ _ _ _ _ _ _].
-    destruct (Jeos Hin) as [Hs|[Hc Hht]]; [left; assumption|right].
+    intros Hin. destruct nprod_focus2 as (f & pf & Vf & Hf & I & J & _).
+    destruct (j_eos _ _ _ _ _ J Hin) as [Hs|[Hc Hht]]; [left; assumption|right].
     split; [assumption|]. split; [assumption|].
     destruct I as [[Rc Rh0 Rht Rlen Rroom Rav Rp Rtk Rf Re Ru] _ _ _ _ _ _ _ _ _ _].
     rewrite Rtk. apply firstn_all2. unfold lenZ in Rp.
-    assert (0 <= rd (rph_cp (cons s) p)) by (destruct (rph_cp (cons s) p); cbn; lia). lia.
+    assert (0 <= rd (rph_cp (cons s) pf)) by (destruct (rph_cp (cons s) pf); cbn; lia). lia.
   Qed.
 
-  (* once source_closed is set the producer thread holds no handle and is outside every
-     operation: nothing is pushed afterwards *)
-  Lemma spsc_closed_is_final :
-    closed (shd s) = true -> exists p, prods s = [p] /\ p_handles p = 0 /\ p_quiet p = true.
+  (* once source_closed is set no producer thread holds a handle or is inside an operation:
+     nothing is pushed afterwards *)
+  Lemma nprod_closed_is_final :
+    closed (shd s) = true -> Forall (fun p => p_handles p = 0 /\ p_quiet p = true) (prods s).
   Proof.
-    intros Hc. destruct (reach_inv_all _ _ _ nstop _ sched Hcfg) as (p & Hp & _ & _ & J). fold s in Hp, J.
-    destruct J as [_ _ _ Jclosed _ _ _ _ _ _ _ _ _ _ _ _ _ _ _ _]. destruct (Jclosed Hc). eauto.
+    intros Hc. destruct nprod_focus2 as (f & pf & Vf & Hf & _ & J & Hloc).
+    destruct (j_closed _ _ _ _ _ J Hc) as (H0 & Hq & Hb & Hs). cbn in H0, Hb, Hs.
+    pose proof (hsum_split _ _ _ Hf) as Sf.
+    assert (Hz : hsum (prods s) = 0) by lia.
+    apply Forall_forall. intros p Hin. split; [eapply hsum_zero; eauto|].
+    apply In_nth_error in Hin as [k Hk]. destruct (Nat.eq_dec k f) as [->|N]; [congruence|].
+    pose proof (nth_in_others _ _ _ _ N Hk) as Ho.
+    rewrite quiet_split. apply andb_true_iff. split; apply negb_true_iff; apply not_true_is_false; intros Hx.
+    - assert (existsb p_busy (others f (prods s)) = true) by (apply existsb_exists; eauto). congruence.
+    - assert (existsb p_storing (others f (prods s)) = true) by (apply existsb_exists; eauto). congruence.
   Qed.
 
   (* no lost wake-up: a consumer that is registered and not woken while the stream is closed /
-     stopped always has the notify_waiters() call of that close / stop still ahead of it
-     (track recv and pipeline recv; stop() only concerns the track) *)
-  Lemma spsc_no_lost_wakeup :
+     stopped always has the notify_waiters() call of that close / stop still ahead of it *)
+  Lemma nprod_no_lost_wakeup :
     c_is_waiting (cons s) = true -> woken (shd s) = false ->
-    (closed (shd s) = true -> exists p, prods s = [p] /\ p_pc p = PDropNotify) /\
+    (closed (shd s) = true -> exists k p, nth_error (prods s) k = Some p /\ p_pc p = PDropNotify) /\
     (c_pc (cons s) = CRvWaiting -> stopped (shd s) = true -> s_pc (stp s) = SNotify).
   Proof.
-    intros Hw Hk. destruct (reach_inv_all _ _ _ nstop _ sched Hcfg) as (p & Hp & _ & _ & J). fold s in Hp, J.
-    destruct J as [_ _ _ _ _ _ _ _ _ _ _ _ _ _ _ _ _ Wstop' _ Wclose'].
-    unfold c_is_waiting_rv, s_notifying, p_notifying in *. split.
-    - intros Hc. exists p. split; [assumption|]. specialize (Wclose' Hw Hk Hc). destruct (p_pc p); try discriminate. reflexivity.
-    - intros Hpc Hs. rewrite Hpc in Wstop'. specialize (Wstop' eq_refl Hk Hs). destruct (s_pc (stp s)); try discriminate. reflexivity.
+    intros Hw Hk. destruct nprod_focus2 as (f & pf & Vf & Hf & _ & J & _). split.
+    - intros Hc. pose proof (w_close' _ _ _ _ _ J Hw Hk Hc) as Hn. cbn in Hn.
+      rewrite <- (existsb_split p_notifying _ _ _ Hf) in Hn. apply existsb_exists in Hn as (p & Hin & Hp).
+      apply In_nth_error in Hin as [k Hk']. exists k, p. split; [assumption|].
+      unfold p_notifying in Hp. destruct (p_pc p); try discriminate. reflexivity.
+    - intros Hpc Hs. pose proof (w_stop' _ _ _ _ _ J) as Hn. unfold c_is_waiting_rv, s_notifying in Hn.
+      rewrite Hpc in Hn. specialize (Hn eq_refl Hk Hs). destruct (s_pc (stp s)); try discriminate. reflexivity.
   Qed.
 
-  (* after close, with the producer thread finished and no stop() in flight, the consumer is never
-     blocked: not on the pop_lock, not in notified().await *)
-  Lemma spsc_consumer_enabled_after_close p :
-    closed (shd s) = true -> prods s = [p] -> p_pc p = PIdle ->
+  (* after close, with every producer thread finished, the consumer is never blocked:
+     not on the pop_lock, not in notified().await *)
+  Lemma nprod_consumer_enabled_after_close :
+    closed (shd s) = true -> Forall (fun p => p_pc p = PIdle) (prods s) ->
     (c_pc (cons s) <> CIdle \/ c_prog (cons s) <> []) ->
     step s 0 <> None.
   Proof.
-    intros Hc Hp Hpi Hbusy.
-    destruct (reach_inv_all _ _ _ nstop _ sched Hcfg) as (p' & Hp' & I & _ & J). fold s in Hp', I, J.
-    rewrite Hp in Hp'. inv_step Hp'.
+    intros Hc Hidle Hbusy.
+    destruct nprod_focus2 as (f & pf & Vf & Hf & I & J & _).
+    assert (Hpi : p_pc pf = PIdle) by (rewrite Forall_forall in Hidle; apply Hidle; eapply nth_error_In; eauto).
+    assert (Hnon : existsb p_notifying (prods s) = false).
+    { apply not_true_is_false. intros Hx. apply existsb_exists in Hx as (p & Hin & Hp).
+      rewrite Forall_forall in Hidle. specialize (Hidle p Hin). unfold p_notifying in Hp. rewrite Hidle in Hp. discriminate. }
+    pose proof (w_close' _ _ _ _ _ J) as Wclose'. cbn in Wclose'. rewrite <- (existsb_split p_notifying _ _ _ Hf), Hnon in Wclose'.
     destruct I as [_ Ilock _ _ _ _ _ _ _ _ _].
-    destruct J as [_ _ _ _ _ _ _ _ _ _ _ _ _ _ _ _ _ _ _ Wclose'].
-    unfold step. unfold cstep, await_step, waiting_step. unfold c_locked, p_locked, c_is_waiting, p_notifying in *. rewrite Hpi in *.
+    unfold step. unfold cstep, await_step, waiting_step. unfold c_locked, p_locked, c_is_waiting in *. rewrite Hpi in *.
     destruct (c_pc (cons s)) eqn:Hpc; try match goal with m : poppc |- _ => destruct m end;
       repeat match goal with
       | |- context [match c_prog ?c with _ => _ end] => destruct (c_prog c) as [|[] ?]
@@ -315,8 +526,22 @@ Section OneProducerClose.
     all: try congruence.
     all: specialize (Wclose' eq_refl eq_refl Hc); discriminate.
   Qed.
-End OneProducerClose.
 
+  (* a cancelled recv() (its future dropped at the await) takes nothing out of the queue, holds no
+     lock, and hands a notify_one it had already received on to the next recv() as the permit *)
+  Lemma nprod_cancel_is_clean :
+    c_is_waiting (cons s) = true -> c_can (cons s) = true ->
+    exists s', step s 0 = Some s' /\
+      c_pc (cons s') = CIdle /\ c_rets (cons s') = c_rets (cons s) ++ [RCancelled] /\
+      head (shd s') = head (shd s) /\ tail (shd s') = tail (shd s) /\ slots (shd s') = slots (shd s) /\
+      taken (shd s') = taken (shd s) /\ lock (shd s') = lock (shd s) /\
+      waiting (shd s') = false /\ woken (shd s') = false /\
+      permit (shd s') = permit (shd s) || (woken (shd s) && wone (shd s)).
+  Proof.
+    intros Hw Hcan. unfold step, cstep, waiting_step, c_is_waiting in *.
+    destruct (c_pc (cons s)); try discriminate; rewrite Hcan; eexists; split; try reflexivity; cbn; repeat split; reflexivity.
+  Qed.
+End NProducersClose.
 (* ---- after close every consumer operation terminates: a measure that every consumer step lowers *)
 Definition c_dist (c : cth) : nat :=
   match c_pc c with
@@ -355,51 +580,64 @@ Proof.
   all: try destruct cl; split; try lia; try assumption; try reflexivity.
 Qed.
 
-Section OneProducerTermination.
-  Variables (capacity w : Z) (cprog : list cop) (nstop : nat) (pprog : list pop_).
-  Hypothesis Hcfg : cfg_ok capacity w cprog pprog.
+Section NProducersTermination.
+  Variables (capacity w : Z) (cprog : list cop) (nstop : nat) (pprogs : list (list pop_)).
+  Hypothesis Hcfg : cfgN_ok capacity w cprog pprogs.
 
   Lemma run_app s a b : run s (a ++ b) = run (run s a) b.
   Proof. revert s. induction a as [|t a IH]; intros s; cbn; [reflexivity|apply IH]. Qed.
 
-  (* liveness after close: once source_closed is set, the producer thread is done and no stop() is
-     in flight, a consumer that runs completes its current recv()/pop() within 20 of its own steps
-     (it cannot be blocked and cannot spin) *)
-  Lemma spsc_recv_terminates_after_close : forall n sched p,
-    let s := run (init capacity w cprog nstop [pprog]) sched in
-    closed (shd s) = true -> prods s = [p] -> p_pc p = PIdle ->
+  (* liveness after close: once source_closed is set and every producer thread is done, a consumer
+     that runs completes its current recv()/pop() within n <= 20 of its own steps (it cannot be
+     blocked and cannot spin): it drains what remains, then gets end-of-stream *)
+  Lemma nprod_recv_terminates_after_close : forall n sched,
+    let s := run (init capacity w cprog nstop pprogs) sched in
+    closed (shd s) = true -> Forall (fun p => p_pc p = PIdle) (prods s) ->
     (c_dist (cons s) <= n)%nat ->
     exists k, (k <= n)%nat /\ c_pc (cons (run s (repeat 0%nat k))) = CIdle.
   Proof.
-    induction n as [|n IH]; intros sched p s Hc Hp Hpi Hd.
+    induction n as [|n IH]; intros sched s Hc Hpi Hd.
     - exists 0%nat. split; [lia|]. cbn. unfold c_dist in Hd. destruct (c_pc (cons s)); try match goal with m : poppc |- _ => destruct m end; try destruct (c_cl (cons s)); try lia; reflexivity.
     - destruct (c_pc (cons s)) eqn:Hpc; try (exists 0%nat; split; [lia|exact Hpc]).
       all: assert (Hne : c_pc (cons s) <> CIdle) by congruence.
-      all: pose proof (spsc_consumer_enabled_after_close capacity w cprog nstop pprog sched Hcfg p Hc Hp Hpi (or_introl Hne)) as Hen.
+      all: pose proof (nprod_consumer_enabled_after_close capacity w cprog nstop pprogs sched Hcfg Hc Hpi (or_introl Hne)) as Hen.
       all: fold s in Hen; unfold step in Hen; destruct (cstep (shd s) (cons s)) as [[h1 c1]|] eqn:Hcs; [|congruence]; clear Hen.
-      all: assert (Hrun : mkSt h1 c1 (stp s) (prods s) = run (init capacity w cprog nstop [pprog]) (sched ++ [0%nat]))
+      all: assert (Hrun : mkSt h1 c1 (stp s) (prods s) = run (init capacity w cprog nstop pprogs) (sched ++ [0%nat]))
              by (rewrite run_app; cbn; unfold step', step; fold s; rewrite Hcs; reflexivity).
       all: destruct (cstep_dist _ _ _ _ Hc Hcs Hne) as [Hlt Hc1].
-      all: destruct (IH (sched ++ [0%nat]) p) as (k & Hk & Hidle);
-           [rewrite <- Hrun; exact Hc1 | rewrite <- Hrun; exact Hp | exact Hpi | rewrite <- Hrun; cbn; lia |].
+      all: destruct (IH (sched ++ [0%nat])) as (k & Hk & Hidle);
+           [rewrite <- Hrun; exact Hc1 | rewrite <- Hrun; exact Hpi | rewrite <- Hrun; cbn; lia |].
       all: exists (S k); split; [lia|]; cbn [repeat run]; unfold step' at 1, step at 1; rewrite Hcs; rewrite <- Hrun in Hidle; exact Hidle.
   Qed.
-End OneProducerTermination.
+End NProducersTermination.
 
 Lemma c_dist_le_20 c : (c_dist c <= 20)%nat.
 Proof. unfold c_dist. destruct (c_pc c); try match goal with m : poppc |- _ => destruct m end; try destruct (c_cl c); lia. Qed.
 
-Lemma spsc_recv_terminates_after_close_20 capacity w cprog nstop pprog sched p :
-  cfg_ok capacity w cprog pprog ->
-  let s := run (init capacity w cprog nstop [pprog]) sched in
-  closed (shd s) = true -> prods s = [p] -> p_pc p = PIdle ->
+Lemma nprod_recv_terminates_after_close_20 capacity w cprog nstop pprogs sched :
+  cfgN_ok capacity w cprog pprogs ->
+  let s := run (init capacity w cprog nstop pprogs) sched in
+  closed (shd s) = true -> Forall (fun p => p_pc p = PIdle) (prods s) ->
   exists k, (k <= 20)%nat /\ c_pc (cons (run s (repeat 0%nat k))) = CIdle.
-Proof. intros Hcfg s Hc Hp Hpi. eapply spsc_recv_terminates_after_close; eauto. apply c_dist_le_20. Qed.
+Proof. intros Hcfg s Hc Hpi. eapply nprod_recv_terminates_after_close; eauto. apply c_dist_le_20. Qed.
 
-(* the premises are satisfiable and the pieces fit: three samples, close, four recv() *)
+(* the premises are satisfiable and the pieces fit *)
 Example drain_then_eos :
   let s := run_ops (init 2 (2 ^ 64) [ORecv; ORecv; ORecv; ORecv] 0 [[OTrySend 1; OTrySend 2; OTrySend 3; ODropSrc]])
                    [2; 2; 2; 2; 0; 0; 0; 0]%nat in
   c_rets (cons s) = [RRecv 1; RRecv 2; REos; REos] /\
   map p_rets (prods s) = [[RTryOk; RTryOk; RWouldBlock]] /\ closed (shd s) = true /\ ub (shd s) = None.
+Proof. vm_compute. repeat split; reflexivity. Qed.
+
+(* three producer threads on one track, a cancelled recv in between, the pipeline queue: *)
+Example three_producers_example :
+  let s := run_ops (init 2 (2 ^ 64) [ORecvC; ORecv; ORecv; ORecv; ORecv] 0
+                      [[OSend 1; ODropSrc]; [OTrySend 11; ODropSrc]; [OSendMany [21; 22]; ODropSrc]])
+                   [0; 2; 3; 4; 4; 4; 2; 3; 4; 0; 0; 0; 0]%nat in
+  c_rets (cons s) = [RCancelled; RRecv 21; RRecv 22; REos; REos] /\ ub (shd s) = None /\ closed (shd s) = true.
+Proof. vm_compute. repeat split; reflexivity. Qed.
+Example pipeline_example :
+  let s := run_ops (init 2 (2 ^ 64) [ORecvQ; ORecvQ; ORecvQ] 0 [[OSend 1; OTrySend 2; ODropTx]])
+                   [2; 2; 2; 0; 0; 0]%nat in
+  c_rets (cons s) = [RRecv 1; RRecv 2; REos] /\ ub (shd s) = None.
 Proof. vm_compute. repeat split; reflexivity. Qed.
